@@ -8,6 +8,7 @@ GEN = R.from_euler('xyz', [0.3, 1.1, 2.0]).as_matrix()
 TRI_P = np.array([[9.0, 0, 0], [2.5, 8.5, 0], [1.5, 2.0, 9.5]])
 TRI_M = np.array([[9.0, 0, 0], [-3.0, 8.5, 0], [2.0, -2.5, 9.5]])
 ORTHO = np.diag([8.0, 9.5, 11.0])
+TRI_N = np.array([[9.0, 0, 0], [-3.0, 9.5, 0], [-2.5, -2.0, 10.0]])      # every tilt factor negative
 TRI_C = np.array([[9.0, 0, 0], [2.5, 9.5, 0], [1.5, 2.0, 8.0]])      # face areas in the opposite order to TRI_P
 CELLS = [
     ('cubic 9', np.diag([9.0, 9.0, 9.0])),
